@@ -41,7 +41,7 @@ func init() {
 		Assumptions:    []string{"panics originate in callees of Validate (format checkers, documented invalid-schema panic)", trustDeps},
 	}
 	Properties["C15"] = PropSpec{
-		Rules:       []Rule{Cow, PatternSearch},
+		Rules:       []Rule{CowReporting, PatternSearch},
 		Explanation: "Static analysis of the whole pattern-cache mechanism on SSA: published snapshots are never written (no MapUpdate/delete on a value derived from the cache load, anywhere in the package); publication happens only in one function, with the mutex in the must-held lockset, after re-loading the snapshot inside the critical section, into a freshly made map that receives every old entry and new entries keyed by String() of the inserted expression; lookups use the requested pattern as key; the miss path compiles exactly the pattern parameter, returns/caches that very value, and returns the compile error unchanged with nothing cached; regexp.Compile/MustCompile/Match* occur nowhere else; the Must variant is only called with constants that the checker itself parses; every call site uses the expression only where the error is known nil. PURE (Pattern clause): Pattern decides by MatchString(data) of the expression compiled from that very pattern and nothing else.",
 		NotDecided:  "The regexp package itself (matching semantics), and sync/atomic.",
 		Assumptions: []string{"regexp.Regexp.String() returns the source text used to compile (regexp documentation)", "sync.Mutex and atomic.Value are correct"},
